@@ -799,7 +799,8 @@ def cfg_logic(tier, seed):
     ls = (1, 2, 4, 6, 12) if tier == "quick" else tuple(range(1, 13))
     for l in ls:
         out.append(dict(l=l, N=3, F=1, cell="o", ppp=[0, 0, 0], topo=TOPO3, weighted=False, what=["qlm", "ql"]))
-        out.append(dict(l=l, N=3, F=1, cell="o", ppp=[0, 0, 0], topo=TOPO3, weighted=True, what=["qlm", "ql"]))
+        if tier == "thorough" or l in (1, 2, 6):
+            out.append(dict(l=l, N=3, F=1, cell="o", ppp=[0, 0, 0], topo=TOPO3, weighted=True, what=["qlm", "ql"]))
     for l in ((1, 2, 6) if tier == "quick" else (1, 2, 3, 4, 6, 8, 10, 12)):
         out.append(dict(l=l, N=3, F=1, cell="o", ppp=[0, 0, 0], topo=TOPO3, weighted=False, what=["w"]))
         out.append(dict(l=l, N=3, F=1, cell="o", ppp=[0, 0, 0], topo=TOPO3, weighted=False, what=["sij"]))
